@@ -284,8 +284,14 @@ def _extract_shortform_citation(
 
     # Get pin_cite
     cite_token = cast(CitationToken, words[index])
+    # The page normally ends the token and a pin cite continues it. A few
+    # reporters put more text after the page inside the token ("19 CO at
+    # 12M"); the text that follows the token does not continue the page then.
+    page = cite_token.groups["page"]
+    if page is not None and not str(cite_token).endswith(page):
+        page = ""
     pin_cite, span_end, parenthetical = extract_pin_cite(
-        words, index, prefix=cite_token.groups["page"]
+        words, index, prefix=page
     )
     span_end = span_end if span_end else 0
 
